@@ -49,11 +49,12 @@ func c04(r *hx.Run) {
 	fx.Quiet()
 	client, v := stdClient()
 	delta := v.P.MaxOperationTimeDelta
-	r.Rule = "(i) every history of <=3 operations after the create (chain-building alphabet, coordinates 2.0,2.1,3.0) that the real processor resolves as deactivated is extended by every 1 (all pool operations incl. forged and creates) and every 2 (legitimate alphabet; thorough: all) later-anchored operations: result must stay deactivated, empty, without commitments and otherwise unchanged; (ii) for each such state a real DocumentHandler with its default decorator must refuse every non-create request and leave queue and unpublished store untouched; (iii) for every history with a recover, removing every subset of updates anchored at or before the last applied recover must not change the result. Non-trivial: distinct (base state, extension) pairs whose extension parses."
+	r.Rule = "(i) every history of <=3 operations after the create (chain-building alphabet, coordinates 2.0,2.1,3.0) that the reference (and, checked, the real processor) resolves as deactivated is extended by every 1 (all pool operations incl. forged and creates) and every 2 (legitimate alphabet; thorough: all) later-anchored operations: result must stay deactivated, empty, without commitments and otherwise unchanged; (ii) for each such state a real DocumentHandler with its default decorator must refuse every non-create request and leave queue and unpublished store untouched; (iii) for every history with a recover, removing every subset of updates anchored at or before the last applied recover must not change the result. Non-trivial: distinct (base state, extension) pairs whose extension parses."
 	pool := fx.NewPool(fx.Ed25519, fx.SHA256, "ok")
 	all := opIDs(pool, func(*fx.PoolOp) bool { return true })
 	legit := opIDs(pool, isLegit)
-	base := []string{"U01", "U12", "U01b", "R01", "R01b", "R12", "D0", "D1", "D1b", "D2", "V01", "D0i", "D0~w", "R01~h"}
+	// R01~w / R01~h leave an empty document with advanced commitments: a deactivate must take effect in that state too
+	base := []string{"U01", "U12", "U01b", "R01", "R01b", "R12", "D0", "D1", "D1b", "D2", "V01", "D0i", "D0~w", "R01~h", "R01~w"}
 	fixedC := []fx.Placed{{Op: pool.Get("C"), Time: 1, Num: 0, Published: true}}
 	e := &histEnum{pool: pool, alpha: base, coords: []Coord{{2, 0}, {2, 1}, {3, 0}}, depth: 3, pubModes: "p", fixed: fixedC}
 	var mu sync.Mutex
@@ -66,8 +67,13 @@ func c04(r *hx.Run) {
 			return
 		}
 		st, _ := ResolveModel(placed, nil, delta)
+		if st != nil && st.Deactivated != rm.Deactivated {
+			// the base states are chosen by the reference: a deactivate that silently does not take effect must not shrink the search
+			r.Violation(fmt.Sprintf("deactivation-differs-from-reference:impl=%v", rm.Deactivated), "base|"+HistKey(placed),
+				fmt.Sprintf("history %v: the processor reports deactivated=%v, the reference %v", placedDesc(placed), rm.Deactivated, st.Deactivated), nil)
+		}
 		mu.Lock()
-		if rm.Deactivated {
+		if st != nil && st.Deactivated {
 			deactStates = append(deactStates, placed)
 		}
 		if st != nil {
